@@ -105,10 +105,10 @@ fn plans(thorough: bool) -> Vec<(&'static str, Vec<HFault>, usize)> {
     } else {
         vec![
             ("all-faults", general(), 2),
-            ("drops-only", vec![HFault::Drop], 3),
+            ("drops-only", vec![HFault::Drop], 4),
             ("fragment-permutation", vec![HFault::Split3Mixed], 1),
-            ("interop-rustrtc-client", general(), 1),
-            ("interop-rustrtc-server", general(), 1),
+            ("interop-rustrtc-client", general(), 2),
+            ("interop-rustrtc-server", general(), 2),
         ]
     }
 }
